@@ -321,6 +321,7 @@ impl<'a, 'tcx> Visitor<'tcx> for V<'a, 'tcx> {
 				for arm in arms.iter() {
 					let mut a = J::obj();
 					a.put("pat", self.pat_j(arm.pat));
+					a.put("span", span_j(self.tcx, arm.span));
 					a.put("guard", J::Bool(arm.guard.is_some()));
 					if let Some(g) = arm.guard {
 						a.put("guard_e", self.expr_j(g, 0));
